@@ -18,6 +18,7 @@ import (
 
 	v1 "github.com/google/go-containerregistry/pkg/v1"
 	"github.com/google/uuid"
+	"github.com/sylabs/sif/v2/pkg/integrity"
 	"github.com/sylabs/sif/v2/pkg/sif"
 )
 
@@ -182,6 +183,8 @@ type Env struct {
 	wrap    func(sif.ReadWriter) sif.ReadWriter // optional I/O interposer (C09)
 	fileSeq int
 	lastForeign string
+	heldVer  *integrity.Verifier      // a Verifier kept across operations (vhold / vheld)
+	heldRes  []integrity.VerifyResult // what its callback was handed during the latest Verify
 	crashCtl bool           // C09: interpose a controllable recorder on every backing store
 	ctl      *ctlRW         // the interposer of the current handle
 	stats    map[string]int // campaign counters
@@ -571,6 +574,60 @@ func (e *Env) applyCore(op *Op) []string {
 			return []string{"noimg"}
 		}
 		return e.doSignedBy(op.V, op.Any)
+	case "vhold":
+		// one Verifier value kept across later operations on the same handle
+		if e.f == nil {
+			return []string{"noimg"}
+		}
+		e.heldVer, e.heldRes = nil, nil
+		opts := append(op.V.build(), integrity.OptVerifyCallback(func(r integrity.VerifyResult) bool {
+			e.heldRes = append(e.heldRes, r)
+			return false
+		}))
+		ver, err := integrity.NewVerifier(e.f, opts...)
+		if err != nil {
+			return []string{"vh newerr:" + ierrClass(err)}
+		}
+		e.heldVer = ver
+		return []string{"vh ok"}
+	case "vheld":
+		if e.f == nil || e.heldVer == nil {
+			return []string{"vh none"}
+		}
+		if op.N == 0 {
+			e.heldRes = nil
+			verr := e.heldVer.Verify()
+			return verifyLines(e.heldRes, verr)
+		}
+		var fps [][]byte
+		var err error
+		if op.N == 1 {
+			fps, err = e.heldVer.AnySignedBy()
+		} else {
+			fps, err = e.heldVer.AllSignedBy()
+		}
+		if err != nil {
+			return []string{"fp err:" + ierrClass(err)}
+		}
+		var p []string
+		for _, f := range fps {
+			p = append(p, hx(f))
+		}
+		return []string{"fp ok " + strings.Join(p, ",")}
+	case "poke":
+		// another writer changes bytes of the backing store; the handle is not told
+		if e.f == nil || e.backend != "buf" || e.buf == nil {
+			return []string{"noimg"}
+		}
+		n := int64(len(e.buf.Bytes()))
+		for _, p := range op.Sites {
+			if p.Off >= 0 && p.Off+int64(len(p.B)) <= n {
+				if _, err := e.buf.Seek(p.Off, io.SeekStart); err == nil {
+					_, _ = e.buf.Write(p.B)
+				}
+			}
+		}
+		return []string{"poked"}
 	case "sign":
 		if e.f == nil {
 			return []string{"noimg"}
